@@ -48,6 +48,9 @@ class Decider:
         self.pending = []
 
     def decide(self, n=2):
+        if getattr(self, "owner", None) is not None and getattr(self.owner, "no_fork", 0) > 0:
+            from .comps import Impure
+            raise Impure()
         k = len(self.trace)
         if k < len(self.prefix):
             c = self.prefix[k]
@@ -117,6 +120,7 @@ class Ex:
 
     def __init__(self, decider, fnqual):
         self.dec = decider
+        decider.owner = self
         self.fnqual = fnqual
         self.cnt = itertools.count(1)
         self.heap = {}
@@ -250,7 +254,9 @@ class Ex:
                                                               z3.And(z3.Or(v_ == 0, self.alloc[v_]), z3.Or(k_ == 0, self.alloc[k_]))),
                                          patterns=[v_], qid=f"good_heap_dict_{next(self.cnt)}"))
         # reference-valued fields of allocated objects point to allocated objects (or None)
-        heapy = {f for (c, f), ty in spec.FIELD_TYPES.items() if ty.is_heap}
+        heapy = {f for (c, f), ty in spec.FIELD_TYPES.items() if ty.is_heap and not f.startswith("$")}
+        for f in sorted(heapy):
+            self.hmap(f, INT)
         for (field, sk), m in sorted(self.heap.items(), key=lambda kv: kv[0]):
             if field in heapy and m.sort().range() == INT:
                 o2 = z3.Const(f"gh_o?{next(self.cnt)}", REF)
@@ -813,6 +819,30 @@ class Ex:
                 return True      # may be a property with a contract
         return False
 
+    def try_pure(self, node, fr):
+        """evaluate `node` if that needs no fork / allocation / state change; None otherwise (state restored)"""
+        from .comps import Impure
+        snap = (dict(self.heap), self.alloc, len(self.pc), len(self.obls), dict(fr.locals), list(self.dec.trace), list(self.dec.pending))
+        self.pure_depth = getattr(self, "pure_depth", 0) + 1
+        self.no_fork = getattr(self, "no_fork", 0) + 1
+        try:
+            v = self.ev(node, fr)
+            if len(self.obls) != snap[3]:
+                raise Impure()
+            return v
+        except Impure:
+            self.heap, self.alloc = snap[0], snap[1]
+            del self.pc[snap[2]:]
+            del self.obls[snap[3]:]
+            fr.locals.clear()
+            fr.locals.update(snap[4])
+            self.dec.trace[:] = snap[5]
+            self.dec.pending[:] = snap[6]
+            return None
+        finally:
+            self.pure_depth -= 1
+            self.no_fork -= 1
+
     def ev_BoolOp(self, e, fr):
         is_and = isinstance(e.op, ast.And)
         if fr.spec:
@@ -823,8 +853,13 @@ class Ex:
         first = self.ev(e.values[0], fr)
         acc = self.truth(first)
         for nxt in e.values[1:]:
+            pv = None
             if not self.has_effects(nxt):
-                t = self.truth(self.ev(nxt, fr))
+                pv = self.ev(nxt, fr)
+            elif not any(isinstance(n, ast.NamedExpr) for n in ast.walk(nxt)):
+                pv = self.try_pure(nxt, fr)
+            if pv is not None:
+                t = self.truth(pv)
                 acc = z3.And(acc, t) if is_and else z3.Or(acc, t)
             else:
                 # short circuit with a possibly effectful operand: fork
